@@ -66,3 +66,36 @@ Proof.
     + exfalso. inversion H; subst. exact (proj1 (He2 _ _ _ _ _) E2).
   - exfalso. inversion H; subst. exact (proj1 (He1 _ _ _ _ _ _) E1).
 Qed.
+
+(* ---- the two facts about the tables that justify modelling choices of LR.v ---- *)
+(* stack invariant of the instance *)
+Definition lr_inv {V} (stk : list (Z * V)) : Prop := is_path tE (map fst stk).
+
+Lemma lr_inv_init {V} (v0 : V) : lr_inv [(0, v0)].
+Proof. reflexivity. Qed.
+
+Lemma lr_inv_step {V} (tv : tk * string -> V) ra stk inp stk' inp' :
+  lr_inv stk -> step V tv ra stk inp = StCont V stk' inp' -> lr_inv stk'.
+Proof. intros H Hs. exact (step_path tE wIn wTop certC cert_ok V tv ra _ _ _ _ H Hs). Qed.
+
+(* (1) no state that can be on the stack shifts the `error` token: goyacc's error recovery pops the
+   whole stack and returns 1, which is what LR.step's StReject models *)
+Theorem error_recovery_aborts : forall V (stk : list (Z * V)), lr_inv stk ->
+  Forall (fun s => err_shift s = false) (map fst stk).
+Proof. intros V stk H. exact (no_error_shift_on_stack tE wIn wTop certC cert_ok V stk H). Qed.
+
+(* (2) every table access made by action / goto / R2 on a reachable configuration is inside its
+   table: nthZ's default value is never used, the Go code cannot panic with an index error here *)
+Theorem table_indices_in_range : forall V (stk : list (Z * V)) inp st v rest,
+  lr_inv stk -> stk = (st, v) :: rest ->
+  action_c st (lookahead inp) = Some (action st (lookahead inp)) /\
+  match action st (lookahead inp) with
+  | AReduce p =>
+    (exists k, nth_c tR2 p = Some k /\ 0 <= k) /\
+    match skipn (rlen p) stk with
+    | (s0, _) :: _ => goto_c s0 p = Some (goto s0 p)
+    | [] => True
+    end
+  | _ => True
+  end.
+Proof. intros V stk inp st v rest H E. exact (step_in_range tE wIn wTop certC cert_ok V stk inp st v rest H E). Qed.
